@@ -176,7 +176,15 @@ def _any(x):
 
 
 jnp = types.SimpleNamespace(expand_dims=_expand_dims, concatenate=_concatenate, any=_any)
-lax = types.SimpleNamespace(scan=_scan)
+def _dyn_slice_in_dim(x, start, size, axis=0):
+    """keys[:, start:start+size, :] of a (chain, time, 2) key stand-in (jax clamps the start so that the slice fits)"""
+    if not isinstance(x, KeyList) or axis != 1:
+        raise NotImplementedError("fake dynamic_slice_in_dim: only the time axis of a key list")
+    start = max(0, min(int(start), len(x.keys) - int(size)))
+    return KeyList(x.keys[start:start + int(size)])
+
+
+lax = types.SimpleNamespace(scan=_scan, dynamic_slice_in_dim=_dyn_slice_in_dim)
 random = types.SimpleNamespace(split=_split)
 jax = types.SimpleNamespace(vmap=_vmap, jit=_jit, lax=lax, random=random, tree_util=_realjax.tree_util,
                             numpy=jnp)
